@@ -380,10 +380,18 @@ def drive(strategy, fn, max_examples, seed_value):
     for violations)."""
     from hypothesis import given, seed
 
+    # Hypothesis' first example is the all-minimal one whatever the seed: with the small per-shard budgets of the
+    # expensive properties that would spend a large share of the runs on one and the same trivial input, so the
+    # first draw is generated but not evaluated.
+    state = {"first": True}
+
     @seed(seed_value)
-    @hyp_settings(max_examples)
+    @hyp_settings(max_examples + 1)
     @given(strategy)
     def _t(case):
+        if state["first"]:
+            state["first"] = False
+            return
         fn(case)
 
     _t()
